@@ -87,7 +87,8 @@ pub struct Finding {
 }
 
 pub fn load_findings(property: &str) -> Vec<Finding> {
-    let path = format!("{VERIF_ROOT}/known_findings.json");
+    // VERIF_FINDINGS: alternative file, used only while developing a check
+    let path = std::env::var("VERIF_FINDINGS").unwrap_or_else(|_| format!("{VERIF_ROOT}/known_findings.json"));
     let Ok(text) = std::fs::read_to_string(&path) else {
         return vec![];
     };
